@@ -28,6 +28,11 @@ def run(ctx):
     for i, (temps, nrec, nadd, ncol) in enumerate(shapes):
         runs.append(["explore", "random", n, s * 13 + i, temps, nrec, nadd, ncol])
         runs.append(["explore", "pct", n, s * 17 + i, temps, nrec, nadd, ncol])
+    # one more thread shuts ONE reader down on its own (MetricReader::Shutdown), racing recorders and collectors
+    shut = [("dc", 2, 2, 3), ("cd", 2, 2, 3), ("dd", 2, 2, 3)] + ([("ddc", 2, 3, 3), ("dc", 3, 3, 3)] if thorough else [])
+    for i, (temps, nrec, nadd, ncol) in enumerate(shut):
+        runs.append(["explore", "random", n // 3, s * 19 + i, temps, nrec, nadd, ncol, 1])
+        runs.append(["explore", "pct", n // 3, s * 23 + i, temps, nrec, nadd, ncol, 1])
     lines, bad = [], []
     with cf.ThreadPoolExecutor(max_workers=6) as ex:
         futs = [(a, ex.submit(_run, exe, a)) for a in runs]
@@ -43,6 +48,9 @@ def run(ctx):
     res = trace.validate(ctx, "MetricsSyncConcTrace", "MetricsSyncConcTrace.cfg", lines, parallel=4, chunk=400, tag="conc")
     ctx.extra["concurrent_executions_validated"] = res["executions"]
     ctx.extra["concurrent_events_validated"] = res["events"]
+    ctx.extra["concurrent_executions_with_reader_shutdown"] = sum(1 for ln in lines if '"e":"DownCall"' in ln)
+    if not ctx.extra["concurrent_executions_with_reader_shutdown"]:
+        raise Broken("vacuity: no concurrent execution shut a reader down")
     ctx.evaluations += res["executions"]
     nd = len(ctx.distinct)
     for e in trace.split_executions(lines):
